@@ -34,8 +34,13 @@ def enumerate_cases(tier, seed):
     for q, strat, calib in itertools.product([1, 2, 4] if quick else qs, ("filter", "fixedinterval"), ("none", "mle", "dynamic")):
         cases.append(dict(id=f"decoupled/{strat}/{calib}/q{q}", group=f"dec/{q}", part="decoupled", strategy=strat, calib=calib, d=3, m=1, q=q, tier=tier, seed=seed, weight=40))
         cases.append(dict(id=f"scalarjac/{strat}/{calib}/q{q}", group=f"sj/{q}", part="scalarjac", strategy=strat, calib=calib, d=2, m=1, q=q, tier=tier, seed=seed, weight=40))
+    # adaptive: the error estimate (either estimator, either error norm) must coincide too, so that the step sequences coincide
     for strat, calib, lin in itertools.product(("filter", "fixedpoint"), ("none", "mle", "dynamic"), ("ts0",)):
-        cases.append(dict(id=f"adaptive/{strat}/{calib}/{lin}", group="adaptive", part="adaptive", strategy=strat, calib=calib, lin=lin, d=2, m=1, q=3, tier=tier, seed=seed, weight=80))
+        for est in ("residual/scale_then_rms", "residual/rms_then_scale", "state1/scale_then_rms", "state0/rms_then_scale"):
+            for d in ((2,) if quick else (2, 3)):
+                if quick and est.startswith("state") and (strat, calib) not in (("filter", "none"), ("fixedpoint", "mle"), ("filter", "dynamic")):
+                    continue
+                cases.append(dict(id=f"adaptive/{strat}/{calib}/{lin}/{est}/d{d}", group=f"adaptive/{d}", part="adaptive", strategy=strat, calib=calib, lin=lin, est=est, d=d, m=1, q=3, tier=tier, seed=seed, weight=80))
     return cases
 
 
@@ -255,7 +260,12 @@ def _run_adaptive(case):
                 prior = impl.make_prior(cfg, ssm, jnp.asarray(tc), jnp.ones(d))
                 con = impl.make_constraint(ssm, jnp.asarray(C), m, case["lin"])
                 solver = impl.make_solver(cfg, con)
-                err = probdiffeq.error_residual_std(constraint=con)
+                ename, nname = case.get("est", "residual/scale_then_rms").split("/")
+                nf = probdiffeq.error_norm_scale_then_rms() if nname == "scale_then_rms" else probdiffeq.error_norm_rms_then_scale()
+                if ename == "residual":
+                    err = probdiffeq.error_residual_std(constraint=con, error_norm=nf)
+                else:
+                    err = probdiffeq.error_state_std(constraint=con, error_norm=nf, derivative_idx=int(ename[-1]))
                 sol = jax.jit(ivpsolve.solve_adaptive_save_at(solver=solver, error=err, warn=False))(prior, save_at=jnp.asarray([0.0, 0.3, 0.55, 1.0]), atol=tol, rtol=tol, dt0=dt0)
                 mean, cov = sol.u.to_multivariate_normal()
                 outs[s] = dict(mean=np.asarray(mean), cov=np.asarray(cov), n=np.asarray(sol.num_steps), scale=np.asarray(sol.output_scale), t=np.asarray(sol.t))
